@@ -3,8 +3,12 @@
 //        chains (directed: every insertion order of n<=N keys into capacity 1..3 tables, every removal position)
 // Monitors: reference model = array of (key index, value id) in iteration order, compared after every operation (size, isEmpty, iteration both
 // directions, find/contains for the whole universe plus absent keys, front/back, returned iterators/references, ==/!= against a second live table);
-// structural walker through -fno-access-control (bucket chains, cell back-pointers, bucket index == hash % capacity, order list links,
-// free list, 4-slot blocks: live + free == 4 * blocks); Elem registry (keys and values are tracked elements); ASan/UBSan/LSan.
+// Elem registry (keys and values are tracked elements); ASan/UBSan/LSan.
+// Normal flavour only (-fno-access-control; everything inside #ifndef VERIF_NO_PRIVATE): structural walker (order list links, bucket chains acyclic, cell
+// back-pointers, bucket index == hash % capacity, every live item in exactly one chain, the capacity member only changes by swap / assignment, free list
+// acyclic and disjoint from the live items, every live and free item inside a block of this table without overlapping another one, live + free == slots
+// of the blocks where the slot count of a block is derived from vh::allocSize(block) - no slot count is assumed) and the chain-position class of a removal.
+// With -DVERIF_NO_PRIVATE the harness uses the public API only: all oracles of the first paragraph stay; walker, chain classes and their counters are absent.
 #include "vh.hpp"
 #include <nstd/HashMap.hpp>
 #include <nstd/HashSet.hpp>
@@ -54,6 +58,7 @@ template <class KT> struct Sel<KT, HMAP> { typedef HashMap<typename KT::K, Elem>
 template <class KT> struct Sel<KT, HSET> { typedef HashSet<typename KT::K> C; static const char* name() { return "HashSet"; } };
 template <class KT> struct Sel<KT, PMAP> { typedef PoolMap<typename KT::K, PVal> C; static const char* name() { return "PoolMap"; } };
 
+#ifndef VERIF_NO_PRIVATE
 // ---------------------------------------------------------------- pointer set for the structural walker
 struct PtrSet {
   const void** tab; size_t cap, n;
@@ -61,25 +66,61 @@ struct PtrSet {
   ~PtrSet() { free(tab); }
   void reset(size_t expect) { size_t want = 64; while (want < expect * 3) want *= 2; if (want > cap) { free(tab); tab = (const void**)malloc(want * sizeof(void*)); cap = want; } memset(tab, 0, cap * sizeof(void*)); n = 0; }
   size_t slot(const void* p) const { return (size_t)(((u64)(uintptr_t)p >> 3) * 0x9e3779b97f4a7c15ULL >> 20) & (cap - 1); }
-  bool add(const void* p) { if ((n + 1) * 2 > cap) return true; size_t s = slot(p); while (tab[s]) { if (tab[s] == p) return false; s = (s + 1) & (cap - 1); } tab[s] = p; ++n; return true; }
+  void grow() { const void** ot = tab; size_t oc = cap; cap *= 2; tab = (const void**)calloc(cap, sizeof(void*)); n = 0; for (size_t i = 0; i < oc; ++i) if (ot[i]) add(ot[i]); free(ot); }
+  bool add(const void* p) { if ((n + 1) * 2 > cap) grow(); size_t s = slot(p); while (tab[s]) { if (tab[s] == p) return false; s = (s + 1) & (cap - 1); } tab[s] = p; ++n; return true; }
   bool has(const void* p) const { size_t s = slot(p); while (tab[s]) { if (tab[s] == p) return true; s = (s + 1) & (cap - 1); } return false; }
 };
 
-static long g_walks = 0, g_chainItems = 0;
-static bool g_chainLenSeen[MAXU + 2];
+// Pool accounting of the walker. Nothing about the number of slots per block is assumed: a block is one heap allocation, its exact size comes from
+// vh::allocSize (sanitizer builds; 0 = unknown, e.g. the plain -O2 build: every size-dependent sub-check is skipped then). From the library's own
+// declarations only sizeof(ItemBlock) (the header in front of the slots) and sizeof(Item) (the slot width) are used.
+struct BlkInfo { const char* start; size_t size, refOff, items; };
+struct PoolAcct {
+  Vec<BlkInfo> blk; bool sized;
+  PoolAcct() : sized(false) {}
+  static int cmp(const void* a, const void* b) { const char* x = ((const BlkInfo*)a)->start; const char* y = ((const BlkInfo*)b)->start; return x < y ? -1 : x > y ? 1 : 0; }
+  void begin() { blk.clear(); sized = true; }
+  void addBlock(const void* p) { BlkInfo b = { (const char*)p, allocSize(p), 0, 0 }; if (!b.size) sized = false; blk.push(b); }
+  void seal() { if (blk.n > 1) qsort(blk.d, blk.n, sizeof(BlkInfo), cmp); }
+  // the block whose allocation holds the bytes [p, p + bytes) behind its header, or 0
+  BlkInfo* locate(const void* p, size_t hdr, size_t bytes) {
+    const char* c = (const char*)p; size_t lo = 0, hi = blk.n;
+    while (lo < hi) { size_t mid = (lo + hi) / 2; if (blk[mid].start <= c) lo = mid + 1; else hi = mid; }
+    if (!lo) return 0;
+    BlkInfo& b = blk[lo - 1]; size_t off = (size_t)(c - b.start);
+    return off >= hdr && off + bytes <= b.size ? &b : 0;
+  }
+  // two distinct items of one block must be a whole number of slot widths apart (else they overlap)
+  bool place(BlkInfo* b, const void* p, size_t bytes) { size_t off = (size_t)((const char*)p - b->start); if (!b->items++) { b->refOff = off; return true; } size_t d = off > b->refOff ? off - b->refOff : b->refOff - off; return d % bytes == 0; }
+  size_t slots(size_t hdr, size_t bytes) const { size_t t = 0; for (size_t i = 0; i < blk.n; ++i) if (blk[i].size >= hdr) t += (blk[i].size - hdr) / bytes; return t; }
+};
+
+static long g_walks = 0, g_chainItems = 0, g_sizedWalks = 0;
+static bool g_chainLenSeen[MAXU + 2], g_slotsPerBlockSeen[65];
+#endif
 
 template <class KT, int KIND> struct Ck {
   typedef typename Sel<KT, KIND>::C C;
   typedef typename C::Iterator It;
+  typedef typename KT::K K;
+  // cap: number of buckets the table works with. Normal flavour: the value of the private member read when the table was constructed / copied / assigned
+  // (whatever the library chose), afterwards only swap may change it. Public-API flavour: the nominal value (constructor argument, 0 -> 1; 500 for default
+  // constructed and copied tables) - there it only selects the generator's state class, no verdict depends on it.
+  struct Box { C* c; Model ref; usize cap; Box() : c(0), cap(0) {} };
+#ifndef VERIF_NO_PRIVATE
   typedef typename C::Item Item;
   typedef typename C::ItemBlock ItemBlock;
-  typedef typename KT::K K;
-  struct Box { C* c; Model ref; usize cap; Box() : c(0), cap(0) {} };
+  static usize capOf(C& c, usize) { return c.capacity; }
+#else
+  static usize capOf(C&, usize nominal) { return nominal; }
+#endif
 
   char keybuf[200];
   const char* key(const char* what) { snprintf(keybuf, sizeof keybuf, "%s/%s", (const char*)ctx, what); return keybuf; }
   static const char* cname() { return Sel<KT, KIND>::name(); }
-  PtrSet live, slots;
+#ifndef VERIF_NO_PRIVATE
+  PtrSet live, freeSet; PoolAcct acct;
+#endif
 
   static int kidx(const It& it) { if constexpr (KIND == HSET) return KT::index(*it); else return KT::index(it.key()); }
   static long val(const It& it) { if constexpr (KIND == HMAP) return (*it).id; else if constexpr (KIND == PMAP) return (*it).tag; else return 0; }
@@ -161,9 +202,11 @@ template <class KT, int KIND> struct Ck {
   }
 
   // ------------------------------------------------------------ structural walker (private state)
+#ifndef VERIF_NO_PRIVATE
   void structure(Box& b) {
     C& c = *b.c; const Model& ref = b.ref; usize cap = c.capacity;
-    if (cap != b.cap) fail(key("structure"), "capacity member is %lu, expected %lu", (unsigned long)cap, (unsigned long)b.cap);
+    if (!cap) fail(key("structure"), "capacity member is 0");
+    if (cap != b.cap) fail(key("structure"), "capacity member is %lu, it was %lu when the table was set up (only swap exchanges capacities)", (unsigned long)cap, (unsigned long)b.cap);
     if (c._end.item != &c.endItem) fail(key("structure"), "_end does not designate the sentinel");
     live.reset(ref.n + 4);
     Item* prev = 0; size_t n = 0;
@@ -195,21 +238,41 @@ template <class KT, int KIND> struct Ck {
       if (tot != n) fail(key("structure"), "bucket chains hold %lu items, order list %lu (an item is unreachable by find)", (unsigned long)tot, (unsigned long)n);
       g_chainItems += (long)tot;
     }
-    // blocks, free list: every slot of every 4-item block is either live or free
+    // blocks and free list: free and live items are disjoint, the free list ends, every item lies in a block of this table and no two items overlap;
+    // with known block sizes: every slot of every block is either live or free
     size_t nb = 0;
     for (ItemBlock* bl = c.blocks; bl; bl = bl->next) { if (++nb > 1000000) fail(key("structure"), "block list does not end"); }
-    slots.reset(nb * 4 + 4);
-    for (ItemBlock* bl = c.blocks; bl; bl = bl->next) { Item* base = (Item*)((char*)bl + sizeof(ItemBlock)); for (int s = 0; s < 4; ++s) slots.add(base + s); }
+    acct.begin();
+    for (ItemBlock* bl = c.blocks; bl; bl = bl->next) acct.addBlock(bl);
+    acct.seal();
+    freeSet.reset(16);
     size_t nf = 0;
     for (Item* f = c.freeItem; f; f = f->prev) {
       if (live.has(f)) fail(key("structure"), "free list contains a live item");
-      if (!slots.has(f)) fail(key("structure"), "free list contains a pointer that is not a slot of this table's blocks");
-      if (++nf > nb * 4) fail(key("structure"), "free list longer than the allocated slots (cycle)");
+      if (acct.sized) {
+        BlkInfo* bi = acct.locate(f, sizeof(ItemBlock), sizeof(Item));
+        if (!bi) fail(key("structure"), "free list contains a pointer that is not a slot of this table's blocks");
+        if (!acct.place(bi, f, sizeof(Item))) fail(key("structure"), "a free item overlaps another item of its block");
+      }
+      if (!freeSet.add(f)) fail(key("structure"), "free list visits an item twice (cycle)");
+      ++nf;
     }
-    for (Item* i = c._begin.item; i != &c.endItem; i = i->next) if (!slots.has(i)) fail(key("structure"), "live item is not a slot of this table's blocks");
-    if (nf + n != nb * 4) fail(key("structure"), "%lu live + %lu free slots != 4 * %lu blocks", (unsigned long)n, (unsigned long)nf, (unsigned long)nb);
+    if (acct.sized) {
+      for (Item* i = c._begin.item; i != &c.endItem; i = i->next) {
+        BlkInfo* bi = acct.locate(i, sizeof(ItemBlock), sizeof(Item));
+        if (!bi) fail(key("structure"), "live item is not a slot of this table's blocks");
+        if (!acct.place(bi, i, sizeof(Item))) fail(key("structure"), "a live item overlaps another item of its block");
+      }
+      size_t total = acct.slots(sizeof(ItemBlock), sizeof(Item));
+      if (nf + n != total) fail(key("structure"), "%lu live + %lu free items != %lu slots in %lu blocks (slot counts derived from the block sizes)", (unsigned long)n, (unsigned long)nf, (unsigned long)total, (unsigned long)nb);
+      for (size_t i = 0; i < acct.blk.n; ++i) { size_t per = (acct.blk[i].size - sizeof(ItemBlock)) / sizeof(Item); g_slotsPerBlockSeen[per > 64 ? 64 : per] = true; }
+      ++g_sizedWalks;
+    }
     ++g_walks;
   }
+#else
+  void structure(Box&) {}   // public API only: no structural walk
+#endif
 
   void all(Box& b, int universe, bool walk) { contents(*b.c, b.ref); if (walk) structure(b); lookups(*b.c, b.ref, universe); }
 
@@ -257,15 +320,20 @@ template <class KT, int KIND> struct Ck {
     }
   }
 
-  // classify where in its bucket chain the item sits (for the evidence)
-  const char* chainClass(C& c, Item* item) {
+  // classify where in its bucket chain the entry sits (for the evidence and the context key); not observable through the public API
+#ifndef VERIF_NO_PRIVATE
+  const char* chainClass(C& c, const It& it) {
+    Item* item = it.item;
     bool head = c.data && item->cell >= c.data && item->cell < c.data + c.capacity; bool tail = item->nextCell == 0;
     return head ? (tail ? "only" : "head") : (tail ? "tail" : "middle");
   }
+#else
+  const char* chainClass(C&, const It&) { return "unobserved"; }
+#endif
 
   void opRemoveKey(Box& b, int k) {
     C& c = *b.c; size_t at = findKey(b.ref, k);
-    const char* cls = "absent"; if (at != npos) { It it = iterAt(c, at); cls = chainClass(c, it.item); }
+    const char* cls = "absent"; if (at != npos) { It it = iterAt(c, at); cls = chainClass(c, it); }
     setctxf("%s.remove(key)/chain-%s", cname(), cls); hist.addf("remove(key#%d)\n", k); setItem("chain_remove_pos", cls);
     const K& kk = KT::make(k);   // by reference: copying an attached String key would make it owned and terminated
     c.remove(kk);
@@ -273,7 +341,7 @@ template <class KT, int KIND> struct Ck {
     cnt("op_remove_key"); if (at == npos) cnt("remove_absent_key");
   }
   void opRemoveIt(Box& b, size_t idx) {
-    C& c = *b.c; It it = iterAt(c, idx); const char* cls = chainClass(c, it.item);
+    C& c = *b.c; It it = iterAt(c, idx); const char* cls = chainClass(c, it);
     setctxf("%s.remove(iterator)/chain-%s", cname(), cls); hist.addf("remove(iterator #%lu)\n", (unsigned long)idx); setItem("chain_remove_pos", cls);
     It r = c.remove(it);
     b.ref.removeAt(idx);
@@ -283,14 +351,14 @@ template <class KT, int KIND> struct Ck {
   }
   void opRemoveValue(Box& b, size_t idx) {   // PoolMap::remove(const V&)
     if constexpr (KIND == PMAP) {
-      C& c = *b.c; It it = iterAt(c, idx); const char* cls = chainClass(c, it.item);
+      C& c = *b.c; It it = iterAt(c, idx); const char* cls = chainClass(c, it);
       setctxf("%s.remove(value)/chain-%s", cname(), cls); hist.addf("remove(value of #%lu)\n", (unsigned long)idx); setItem("chain_remove_pos", cls);
       PVal& v = *it; c.remove(v);
       b.ref.removeAt(idx); cnt("op_remove_value");
     }
   }
   void opRemoveEnd(Box& b, bool front) {
-    C& c = *b.c; It it = front ? c.begin() : iterAt(c, b.ref.n - 1); const char* cls = chainClass(c, it.item);
+    C& c = *b.c; It it = front ? c.begin() : iterAt(c, b.ref.n - 1); const char* cls = chainClass(c, it);
     setctxf("%s.%s/chain-%s", cname(), front ? "removeFront" : "removeBack", cls); hist.add(front ? "removeFront\n" : "removeBack\n");
     It r = front ? c.removeFront() : c.removeBack();
     if (front) b.ref.removeAt(0); else b.ref.pop();
@@ -356,7 +424,7 @@ template <class KT, int KIND> static void history(Ck<KT, KIND>& ck, Rng& r, long
   for (int i = 0; i < NK; ++i) tot += w[i];
   Box A, B; Box* mp = &A; Box* op = &B;
   setctxf("%s.constructor", CK::cname());
-  A.c = makeTable<C>(capA, dA); A.cap = capA ? capA : 1; B.c = makeTable<C>(capB, dB); B.cap = capB ? capB : 1;
+  A.c = makeTable<C>(capA, dA); A.cap = CK::capOf(*A.c, capA ? capA : 1); B.c = makeTable<C>(capB, dB); B.cap = CK::capOf(*B.c, capB ? capB : 1);
   ck.all(A, universe, true); ck.all(B, universe, true);
   long nextVal = 1; u64 fp = mix((u64)KIND * 3 + (u64)keyFamily, (u64)capA * 1000 + capB); bool removed = false; size_t maxn = 0;
   for (int o = 0; o < nops; ++o) {
@@ -379,7 +447,7 @@ template <class KT, int KIND> static void history(Ck<KT, KIND>& ck, Rng& r, long
     case 8:   // copy-construct, check, mutate the copy, check independence
       if constexpr (KIND != PMAP) {
         setctxf("%s.copy-construct/%s", CK::cname(), m.ref.n ? "non-empty" : "empty"); hist.add("copy-construct; mutate the copy; destroy it\n");
-        Box cp; cp.c = new C(*m.c); cp.ref = m.ref; cp.cap = cp.c->capacity;   // the capacity of a copy is not specified: take what the library chose, the walker checks placement against it
+        Box cp; cp.c = new C(*m.c); cp.ref = m.ref; cp.cap = CK::capOf(*cp.c, 500);   // the capacity of a copy is not specified: take what the library chose, the walker checks placement against it
         if (!cp.cap) fail("copy-construct/capacity", "copy has capacity 0");
         ck.all(cp, universe, true); ck.equality(cp, m);
         setctxf("%s.copy-construct/independence", CK::cname());
@@ -393,8 +461,8 @@ template <class KT, int KIND> static void history(Ck<KT, KIND>& ck, Rng& r, long
       break;
     case 9:   // other = m (onto empty / non-empty), or replace other by a copy-constructed table (capacity 500)
       if constexpr (KIND != PMAP) {
-        if (r.chance(1, 4)) { setctxf("%s.copy-construct/%s", CK::cname(), m.ref.n ? "non-empty" : "empty"); hist.add("other := new copy of m\n"); C* nc = new C(*m.c); setctxf("%s.destructor", CK::cname()); delete other.c; other.c = nc; other.cap = nc->capacity; other.ref = m.ref; setctxf("%s.copy-construct/%s", CK::cname(), m.ref.n ? "non-empty" : "empty"); cnt("op_copy_construct"); }
-        else { setctxf("%s.operator=/onto-%s", CK::cname(), other.ref.n ? "non-empty" : "empty"); hist.add("other = m\n"); setItem("assign_classes", other.ref.n ? (m.ref.n ? "nonempty=nonempty" : "nonempty=empty") : (m.ref.n ? "empty=nonempty" : "empty=empty")); *other.c = *m.c; other.ref = m.ref; other.cap = other.c->capacity; cnt("op_assign"); }
+        if (r.chance(1, 4)) { setctxf("%s.copy-construct/%s", CK::cname(), m.ref.n ? "non-empty" : "empty"); hist.add("other := new copy of m\n"); C* nc = new C(*m.c); setctxf("%s.destructor", CK::cname()); delete other.c; other.c = nc; other.cap = CK::capOf(*nc, 500); other.ref = m.ref; setctxf("%s.copy-construct/%s", CK::cname(), m.ref.n ? "non-empty" : "empty"); cnt("op_copy_construct"); }
+        else { setctxf("%s.operator=/onto-%s", CK::cname(), other.ref.n ? "non-empty" : "empty"); hist.add("other = m\n"); setItem("assign_classes", other.ref.n ? (m.ref.n ? "nonempty=nonempty" : "nonempty=empty") : (m.ref.n ? "empty=nonempty" : "empty=empty")); *other.c = *m.c; other.ref = m.ref; other.cap = CK::capOf(*other.c, other.cap); cnt("op_assign"); }
         otherTouched = true;
       }
       break;
@@ -462,7 +530,7 @@ template <int KIND> static void chainCase(Ck<KElem, KIND>& ck, const int* seq, i
   typedef Ck<KElem, KIND> CK; typedef typename CK::C C; typedef typename CK::Box Box;
   // build by append (how 0), prepend / insert-at-begin (how 1), insert before the middle (how 2); then remove every position by iterator, by key, drain
   for (int rm = -2; rm < 2 * n; ++rm) {
-    Box b; b.c = new C(cap); b.cap = cap ? cap : 1;
+    Box b; b.c = new C(cap); b.cap = CK::capOf(*b.c, cap ? cap : 1);
     for (int i = 0; i < n; ++i) {
       if (how == 0) ck.opInsert(b, CK::APPEND, 0, "", seq[i], 100 + i);
       else if (how == 1) { if (KIND != PMAP) ck.opInsert(b, CK::PREPEND, 0, "", seq[i], 100 + i); else ck.opInsert(b, CK::INSERT, 0, b.ref.n ? "begin" : "end", seq[i], 100 + i); }
@@ -515,8 +583,11 @@ int main(int argc, char** argv) {
   else if (!strcmp(m, "pmap")) randomHistories<PMAP>();
   else if (!strcmp(m, "chains")) chains(opts.scale > 1 ? (int)opts.scale : 6);   // enumeration order does not depend on the bound: replays need no --scale
   else harnessBug("unknown mode %s", m);
-  cnt("structure_walks", g_walks); cnt("chain_items_walked", g_chainItems);
+#ifndef VERIF_NO_PRIVATE
+  cnt("structure_walks", g_walks); cnt("chain_items_walked", g_chainItems); cnt("walks_with_block_sizes", g_sizedWalks);
   for (int i = 1; i <= MAXU + 1; ++i) if (g_chainLenSeen[i]) { char t[16]; snprintf(t, sizeof t, "%d", i); setItem("chain_lengths", t); }
+  for (int i = 0; i <= 64; ++i) if (g_slotsPerBlockSeen[i]) { char t[16]; snprintf(t, sizeof t, "%s%d", i < 64 ? "" : ">=", i); setItem("slots_per_block", t); }
+#endif
   g_viewsReady = false; for (int i = 0; i < MAXU; ++i) { g_strTab[i] = String(); g_strView[i] = String(); }
   leakCheck("Hash/leak");
   finish();
